@@ -1210,3 +1210,53 @@ def _await_lock_release(it, aw, idx, node):
 def _new_timedelta(it, lv, ca, node):
     o = it.st.alloc("timedelta")
     return o
+
+
+# ------------------------------------------------------------------------------------------------
+# tasks, timers, callbacks (T-FUT, T-TIMER): registrations are recorded, the loop runs them later
+# ------------------------------------------------------------------------------------------------
+@spec("EventLoop.create_task", "TaskGroup.create_task", "asyncio.create_task")
+def _create_task(it, lv, ca, node):
+    used("T-FUT")
+    st = it.st
+    t = new_future(it, "Task")
+    coro = ca.pos[0] if ca.pos else None
+    st.events.append(("create_task", t, coro, ca.kw.get("context"), lv.bound))
+    st.ghost.setdefault("$tasks", []).append(dict(task=t, coro=coro, context=ca.kw.get("context"), via=lv.bound,
+                                                 name=lv.name))
+    c = st.contract
+    if c is not None and hasattr(c, "on_create_task"):
+        c.on_create_task(it, t, coro, ca, lv)
+    return t
+
+
+@spec("Future.add_done_callback")
+def _add_done_callback(it, lv, ca, node):
+    used("T-FUT")
+    it.st.ghost.setdefault("$done_callbacks", []).append((lv.bound, ca.pos[0]))
+    return V.VNone
+
+
+@spec("Task.cancel")
+def _task_cancel(it, lv, ca, node):
+    """Task.cancel() only *requests* cancellation; the task ends later (T-FUT)."""
+    used("T-FUT")
+    it.st.ghost.setdefault("$cancel_requests", []).append(lv.bound)
+    return V.VBool(fstate(it, lv.bound) == F_PENDING)
+
+
+@spec("EventLoop.call_later")
+def _call_later(it, lv, ca, node):
+    used("T-TIMER")
+    st = it.st
+    h = st.alloc("TimerHandle")
+    st.put(h, "$tcancelled", it.mk_bool(False))
+    st.ghost.setdefault("$timers", []).append(dict(handle=h, delay=ca.pos[0], callback=ca.pos[1], args=ca.pos[2:]))
+    return h
+
+
+@spec("TimerHandle.cancel")
+def _timer_cancel(it, lv, ca, node):
+    used("T-TIMER")
+    it.st.put(lv.bound, "$tcancelled", it.mk_bool(True))
+    return V.VNone
